@@ -72,6 +72,10 @@ var props = []*propSpec{
 }
 
 func init() {
+	props = append(props, &propSpec{ID: "C09", Level: "exploration", Clauses: []string{"C09.", "C03.", "C04."},
+		Scens:  []scenSpec{{Name: "restartdir", Weight: 1, Batch: 20}},
+		QuickS: 40, ThorS: 600,
+		Rule: "directory populations (layouts, kinds, sizes, duplicates, lost+found), access-time permutations, max_size relative to the total and the storage mode are generated from VERIF_SEED; a run is non-trivial if the directory held at least one file and (an eviction happened at start-up or a legacy layout was migrated or a preemption occurred); distinct = distinct schedule/outcome hash"})
 	props = append(props, &propSpec{ID: "C02", Level: "exploration", Clauses: []string{"C02."},
 		Scens:  []scenSpec{{Name: "read", Weight: 1}},
 		QuickS: 40, ThorS: 600, Rule: ruleCommon})
